@@ -15,20 +15,22 @@ import (
 )
 
 type Engine struct {
-	repo      string
-	pkg       *packages.Package
-	fset      *token.FileSet
-	info      *types.Info
-	funcs     map[string]*ast.FuncDecl // qualified name -> decl
-	fobj      map[string]*types.Func
-	fileOf    map[string]string
-	cf        *ContractFile
-	typeIds   map[string]int
-	typeIdL   []string
-	specFns   map[string]bool // functions defined in zz_spec_verif.go
-	srcs      map[string][]byte
-	funcLoops map[string][]ast.Stmt
-	mu        sync.Mutex
+	repo       string
+	pkg        *packages.Package
+	fset       *token.FileSet
+	info       *types.Info
+	funcs      map[string]*ast.FuncDecl // qualified name -> decl
+	fobj       map[string]*types.Func
+	fileOf     map[string]string
+	cf         *ContractFile
+	typeIds    map[string]int
+	typeIdL    []string
+	specFns    map[string]bool // functions defined in zz_spec_verif.go
+	srcs       map[string][]byte
+	funcLoops  map[string][]ast.Stmt
+	mu         sync.Mutex
+	globalInit map[*types.Var]ast.Expr
+	typeById   map[int]types.Type
 }
 
 func qualName(fd *ast.FuncDecl) string {
@@ -140,6 +142,10 @@ func (e *Engine) typeId(t types.Type) int {
 	id := len(e.typeIds) + 1
 	e.typeIds[k] = id
 	e.typeIdL = append(e.typeIdL, k)
+	if e.typeById == nil {
+		e.typeById = map[int]types.Type{}
+	}
+	e.typeById[id] = t
 	return id
 }
 
@@ -232,4 +238,87 @@ func (e *Engine) loopsOf(q string) []ast.Stmt {
 	}
 	e.funcLoops[q] = loops
 	return loops
+}
+
+// immutableInit returns the initializer expression of a package-level
+// variable of this package that is never assigned or address-taken.
+func (e *Engine) immutableInit(o *types.Var) ast.Expr {
+	e.mu.Lock()
+	defer e.mu.Unlock()
+	if e.globalInit == nil {
+		e.globalInit = map[*types.Var]ast.Expr{}
+		mutated := map[types.Object]bool{}
+		for _, f := range e.pkg.Syntax {
+			ast.Inspect(f, func(n ast.Node) bool {
+				mark := func(x ast.Expr) {
+					for {
+						switch v := x.(type) {
+						case *ast.ParenExpr:
+							x = v.X
+							continue
+						case *ast.IndexExpr:
+							x = v.X
+							continue
+						case *ast.SelectorExpr:
+							x = v.X
+							continue
+						case *ast.StarExpr:
+							x = v.X
+							continue
+						case *ast.Ident:
+							if ob := e.info.Uses[v]; ob != nil {
+								mutated[ob] = true
+							}
+						}
+						return
+					}
+				}
+				switch s := n.(type) {
+				case *ast.AssignStmt:
+					for _, l := range s.Lhs {
+						mark(l)
+					}
+				case *ast.IncDecStmt:
+					mark(s.X)
+				case *ast.UnaryExpr:
+					if s.Op == token.AND {
+						mark(s.X)
+					}
+				case *ast.CallExpr:
+					// method calls with pointer receivers on globals (mutex.Lock) and delete()
+					if sel, ok := s.Fun.(*ast.SelectorExpr); ok {
+						if se := e.info.Selections[sel]; se != nil && se.Kind() == types.MethodVal {
+							if _, isPtr := se.Obj().Type().(*types.Signature).Recv().Type().(*types.Pointer); isPtr {
+								mark(sel.X)
+							}
+						}
+					}
+					if id, ok := s.Fun.(*ast.Ident); ok && id.Name == "delete" && len(s.Args) > 0 {
+						mark(s.Args[0])
+					}
+				}
+				return true
+			})
+		}
+		for _, f := range e.pkg.Syntax {
+			for _, d := range f.Decls {
+				gd, ok := d.(*ast.GenDecl)
+				if !ok || gd.Tok != token.VAR {
+					continue
+				}
+				for _, sp := range gd.Specs {
+					vs := sp.(*ast.ValueSpec)
+					if len(vs.Values) != len(vs.Names) {
+						continue
+					}
+					for i, n := range vs.Names {
+						if ob, ok := e.info.Defs[n].(*types.Var); ok && !mutated[ob] {
+							e.globalInit[ob] = vs.Values[i]
+						}
+					}
+				}
+			}
+		}
+	}
+	return e.globalInit[o]
 }
